@@ -3,7 +3,7 @@
    terminates on EVERY input string — any sequence of code points, for every word-character
    table uw — with a complete token list or exactly one exception. *)
 From Coq Require Import String NArith ZArith List Bool.
-From BP Require Import TotalBase LexBase Lex LexSpec LexCase LexProofs.
+From BP Require Import TotalBase LexBase Lex LexSpec LexCase LexProofs LexActions.
 From BPGen Require Import GenLexer.
 Import ListNotations.
 
@@ -31,6 +31,44 @@ Theorem C09_lex_lexeme_in_language : forall uw fuel s r s',
   In r lex_rules /\ exists w, snd s = w ++ snd s' /\ fst s' = lastc (fst s) w /\ dm uw (r_rx r) (fst s) w (snd s').
 Proof. exact chosen_lexeme_in_language. Qed.
 Print Assumptions C09_lex_lexeme_in_language.
+
+(* how a run can end, for EVERY input: token() returns None (LDone); t_error raises its LexerError; a
+   rule body raises one of three ParserErrors (width outside 1..64, unknown escape); or — the exact
+   guard, known finding huge-literal — int() raises ValueError at a run of more than 4300 DECIMAL
+   digits (a literal, or the width after uint / int).  Nothing else: no IndexError / KeyError in the
+   escape loop, no ValueError from int() on a hex literal, never out of fuel. *)
+Theorem C09_lex_end_good : forall uw s its e rem,
+  lex_run uw s = (its, e, rem) ->
+  match e with
+  | LDone | LError _ _ _ => True
+  | LActErr k _ => In k ["InvalidUintCap"; "InvalidIntCap"; "InvalidEscapingChar"]%string
+  | LCrash ex => ex = ValueError /\
+      exists pre ds post, rem = pre ++ ds ++ post /\ (pre = [] \/ pre = W_uint \/ pre = W_int)
+                          /\ forallb dig10 ds = true /\ (py_int_max_str_digits < zlen ds)%Z
+  | LFuel => False
+  end.
+Proof. exact lex_end_good. Qed.
+Print Assumptions C09_lex_end_good.
+
+(* every rule body is total on every lexeme its regex admits (same guard) *)
+Theorem C09_lex_action_total : forall uw r p w post line,
+  In r lex_rules -> dm uw (r_rx r) p w post ->
+  act_good (run_action (r_name r) (r_act r) w line) w post.
+Proof. exact action_good. Qed.
+Print Assumptions C09_lex_action_total.
+
+(* the escape loop on a STRING_LITERAL lexeme: a value or InvalidEscapingChar, never an exception *)
+Theorem C09_lex_unescape_total : forall uw p w post,
+  dm uw rx_t_STRING_LITERAL p w post ->
+  (exists v, unescape_token w = Ok v) \/ unescape_token w = ParserError "InvalidEscapingChar"%string.
+Proof. exact unescape_total. Qed.
+Print Assumptions C09_lex_unescape_total.
+
+(* the guard is needed: 4301 digits crash, 4300 do not (known finding huge-literal) *)
+Theorem C09_lex_huge_literal_refuted : forall uw,
+  snd (lex uw (repeat 49%N 4301)) = LCrash ValueError /\ snd (lex uw (repeat 49%N 4300)) = LDone.
+Proof. exact huge_literal_witness. Qed.
+Print Assumptions C09_lex_huge_literal_refuted.
 
 (* non-vacuity: a text with every kind of token; an unterminated string; a bad width *)
 Example C09_lex_nonvacuous :
